@@ -7,7 +7,7 @@ from suites import server as S
 
 THEOREMS = ("C13_resume_preserves_work / C13_log_with_exit_is_finalised / C13_server_start_finalises / "
             "C13_resume_at_quiescent / C13_resume_any_prefix_refuted")
-KINDS = ["success", "fan", "wait", "stepfail", "handler", "cancel", "timeout", "engine_policy"]
+KINDS = ["success", "fan", "wait", "stepfail", "handler", "cancel", "timeout", "engine_policy", "fansame"]
 K_RETURNED = "C13/returned-event-tick-not-persisted"
 K_SENT = "C13/sent-event-tick-not-persisted"
 
